@@ -120,9 +120,30 @@ def expanded_source():
     return _EXPANDED[REPO]
 
 
+def _dep_source(rel):
+    """`dep:<crate>/<path>`: a file of the dependency's source as pinned by /repo's Cargo.lock (cargo registry, offline)"""
+    import glob
+    crate, path = rel[4:].split('/', 1)
+    ov = os.environ.get('VX_DEP_' + crate.upper().replace('-', '_'))   # dev only: a scratch copy of the dependency (mutation tests)
+    if ov:
+        return open(os.path.join(ov, path)).read()
+    lock = os.path.join(REPO, 'Cargo.lock')
+    if not os.path.exists(lock):
+        lock = '/repo/Cargo.lock'
+    m = re.search(r'name = "%s"\s*\nversion = "([^"]+)"' % re.escape(crate), open(lock).read())
+    if not m:
+        raise ExtractError('dependency %s not in Cargo.lock' % crate)
+    cands = sorted(glob.glob(os.path.expanduser('~/.cargo/registry/src/*/%s-%s/%s' % (crate, m.group(1), path))))
+    if not cands:
+        raise ExtractError('source of dependency %s %s not found in the cargo registry' % (crate, m.group(1)))
+    return open(cands[0]).read()
+
+
 def _read_repo(rel):
     if rel == 'expanded':
         return expanded_source()
+    if rel.startswith('dep:'):
+        return _dep_source(rel)
     p = os.path.join(REPO, rel)
     if not os.path.exists(p):
         raise ExtractError('source file missing: %s' % rel)
@@ -540,6 +561,14 @@ def expand(units, name, cfg, log, seen, vac):
                 for dep in s.split()[1:]:
                     out.append(expand(units, dep, cfg, log, seen, vac))
                 out.append(origin)
+            i += 1
+            continue
+        if s.startswith('//@expect '):
+            # //@expect FILE :: REGEX -- the real source must (still) contain this declaration (whitespace-insensitive)
+            if active[-1]:
+                file, rx = [p.strip() for p in s[len('//@expect '):].split('::', 1)]
+                if not re.search(r'\s*'.join(rx.split()), rustlex.strip_comments(_read_repo(file))):
+                    raise ExtractError('%s: expected declaration /%s/ not found (lost anchor)' % (file, rx))
             i += 1
             continue
         if s.startswith('//@fields '):
